@@ -785,7 +785,7 @@ func eachTruncation(emit func(admitCase)) {
 }
 
 func init() {
-	pbt.Register(pbt.Sub[admitCase]{Name: "admission", Weight: 1, Gen: genAdmit, Check: checkAdmit})
+	pbt.Register(pbt.Sub[admitCase]{Name: "admission", Weight: 20, Gen: genAdmit, Check: checkAdmit})
 	pbt.RegisterEnum(pbt.Enum[admitCase]{Name: "header-matrix", Exhaustive: true, Each: eachHeader, Check: checkAdmit})
 	pbt.RegisterEnum(pbt.Enum[admitCase]{Name: "every-truncation", Exhaustive: true, Each: eachTruncation, Check: checkAdmit})
 }
